@@ -31,7 +31,9 @@ TInit == Init /\ tid \in 1..Len(Traces) /\ l = 1
 (* the emptiness tests of the send queue are not logged: finding it empty is a silent step of the receiver loop             *)
 TSeesEmpty == /\ rpc = "check" /\ sq = <<>> /\ rpc' = "wait"
               /\ UNCHANGED <<pc, res, ret, sq, rtrig, ritem, link, noticed, sent, closed, tid, l>>
-TCall == Is("Call") /\ Start(Cur.s) /\ Adv
+(* (a send_message entered after the close sequence ended is recorded as well: its block waits for the next connection)              *)
+TCall == /\ Is("Call") /\ pc[Cur.s] = "idle" /\ (Cur.s = Conn => noticed)
+         /\ pc' = [pc EXCEPT ![Cur.s] = "put"] /\ UNCHANGED <<res, ret, sq, rtrig, rpc, ritem, link, noticed, sent, closed>> /\ Adv
 TPut == Is("Put") /\ Put(Cur.s) /\ Adv
 TTrig == Is("Trig") /\ Trig(Cur.s) /\ Adv
 TKick == Is("Kick") /\ rtrig' = TRUE /\ UNCHANGED <<pc, res, ret, sq, rpc, ritem, link, noticed, sent, closed>> /\ Adv
